@@ -706,6 +706,33 @@ func c16SecondHunt(ctx *Ctx, r *Report) {
 				})
 			}
 		}
+		// the same on the models' side: the default of a field typed by a reference instantiates the referred class —
+		// never an alias, which defaultValueForTypeRec follows first
+		if fn := ctx.LookupFunc("internal/jennies/python", "defaultValueForTypeRec"); fn == nil {
+			r.Undecided("anchor lost: python.defaultValueForTypeRec")
+		} else if fd, p := ctx.DeclOf(fn); fd != nil {
+			followsAlias := false
+			ast.Inspect(fd.Body, func(m ast.Node) bool {
+				is, ok := m.(*ast.IfStmt)
+				if !ok {
+					return true
+				}
+				cond := exprString(is.Cond)
+				if !strings.Contains(cond, ".Type.IsRef()") {
+					return true
+				}
+				ast.Inspect(is.Body, func(q ast.Node) bool {
+					if c, ok := q.(*ast.CallExpr); ok && callee(p.TypesInfo, c) == fn {
+						followsAlias = true
+					}
+					return true
+				})
+				return true
+			})
+			r.Count("instantiations in the Python builder template", 1)
+			r.Check(followsAlias, "skeleton/python-alias-builder-instantiates-struct", "python.defaultValueForTypeRec follows aliases before instantiating", fd.Pos(), "the default of a reference to an alias is the default of what the alias names",
+				"the default of a field typed by a reference is `Name()` whatever the referred object: for an alias (a string at run time) the model's constructor raises TypeError: 'str' object is not callable")
+		}
 		r.Count("instantiations in the Python builder template", 1)
 		r.Check(instantiated != "" && instantiated != ".ObjectName" && instantiated != ".BuilderSignatureType" && followed, "skeleton/python-alias-builder-instantiates-struct", "python builder __init__ instantiates the class at the end of the alias chain", token.NoPos,
 			"__init__ instantiates "+instantiated+", computed by following the references",
